@@ -11,7 +11,7 @@ SPECIAL = ['http', 'https', 'ws', 'wss', 'ftp', 'file']
 SCHEMES = SPECIAL + ['a', 'non-special', 'blob', 'mailto', 'git+ssh', 'x.y', 'HTTP', 'hTtPs', 'FILE', 'javascript', 'data']
 LENS = [0, 1, 2, 3, 7, 8, 9, 15, 16, 17, 31, 32, 33, 47, 48, 49, 64]
 
-HOSTS = ['', '', 'example.com', 'EXAMPLE.COM', 'a', 'a.b', 'localhost', 'LOCALHOST', '127.0.0.1', '1.2.3.4', '0x7f.1', '0x7F000001',
+HOSTS = ['', '', 'example.com', 'EXAMPLE.COM', 'a', 'example.0XA', 'foo.bar.0x1F', 'a.0X', 'a.0x', 'example.0xa', 'www.example.077', 'a.b.0XFF.', 'example.09', 'h.1', 'h.1.', 'a.b', 'localhost', 'LOCALHOST', '127.0.0.1', '1.2.3.4', '0x7f.1', '0x7F000001',
          '017700000001', '1.2.3', '1.2', '1', '256', '1.2.3.256', '1.2.3.4.5', '1.2.3.4.', '1..2', '0x', '0x.', '08', '0.08',
          '4294967295', '4294967296', '0xffffffff', '0x100000000', '1.0xffffff', '1.0x1000000', '1.2.0xffff', '1.2.65536',
          '1.2.3.0xff', 'a.1', '1.a', 'a.0x1', 'a.08', 'a.1.', 'a..1', '.1', '1.', '09', '0X10', '00000000000000000001',
@@ -92,6 +92,8 @@ def gen_fastpath(rng):
     """inputs eligible for the 'simple absolute http(s)' shortcut, with controlled lengths"""
     scheme = rng.choice(['http', 'https'])
     host = pad(rng, rng.choice(['a', 'example.com', 'www.a-b.example', 'x1.y2', 'a_b.c']), rng.choice(LENS[1:]))
+    if rng.random() < 0.12:
+        host = rng.choice(['example.', 'a.b.', 'x-y.']) + rng.choice(['0XA', '0x1F', '0X', '0x', '1', '077', '09', 'xn--a', 'XN--ZCA', '0Xg'])
     s = scheme + '://' + host
     if rng.random() < 0.3:
         s += ':' + rng.choice(['80', '443', '8080', '1', '65535'])
@@ -122,7 +124,16 @@ def mutate_byte(rng, s):
         return s
 
 
+FILE_PATHS = ['', '/', '/a/b', 'a/b', '\\a\\b', 'C:\\dir\\file.txt', '/C:/x', 'C|/x', '/C|', '//host/share', '/a/../b', '/a/./b/', '..', '.', '/..', 'a b', '/a?b#c', '/%2e%2e/x',
+              '/a%', '/\u00e9', '/a\tb', '\t/x', ' /x ', '/x//y', '///x', '/"<>`{}', '/~', 'x' * 40, '/a/b/../../..', 'c:', '/c:/..', '\\\\server\\share']
+
+
 def parse_workload(ops, rng, n, with_canparse=True):
+    ops.reset()
+    for fp in FILE_PATHS:
+        ops.href_from_file(fp)
+    for i in range(max(1, n // 20)):
+        ops.href_from_file(mutate_byte(rng, rng.choice(FILE_PATHS)) + rng.choice(['', '/', 'x', '/..', '?q', '#f']))
     for i in range(n):
         r = rng.random()
         base = rng.choice(BASES)
